@@ -260,6 +260,7 @@ spifconf_put_var(spif_charptr_t var, spif_charptr_t val)
         n = strcmp((char *) var, (char *) v->var);
         D_CONF(("Comparing at %10p:  \"%s\" -> \"%s\", n == %d\n", v, v->var, v->value, n));
         if (n == 0) {
+            FREE(var);
             FREE(v->value);
             if (val) {
                 v->value = val;
@@ -280,6 +281,7 @@ spifconf_put_var(spif_charptr_t var, spif_charptr_t val)
     }
     if (!val) {
         D_CONF(("Empty value given for non-existant variable \"%s\".  Aborting.\n", var));
+        FREE(var);
         return;
     }
     D_CONF(("Inserting new var/val pair between \"%s\" and \"%s\"\n",
